@@ -262,7 +262,9 @@ def check(tier):
                               'the algorithm module %s no longer computes the published scheme: %s' % (to, fl[0].detail[:160] if fl else ''),
                               what='%s: %s as published (C06)' % (name, to.replace('stdnum.', '')))
                 if 'argument' in ck:
-                    calls = [src(n.args[0]) for n in ast.walk(prog.mods[mn].funcs['validate']) if isinstance(n, ast.Call) and src(n.func).endswith('mod_97_10.validate') and n.args]
+                    from ..match import resolve_locals
+                    vf_ = prog.mods[mn].funcs['validate']
+                    calls = [src(resolve_locals(vf_, n.args[0])) for n in ast.walk(vf_) if isinstance(n, ast.Call) and src(n.func).endswith('mod_97_10.validate') and n.args]
                     rep.check(calls == [ck['argument']], 'C07.checksum', file, 'validate', '%s rearrangement' % name, 0,
                               'the digits are handed to Mod 97-10 as %s, the standard moves the first four characters to the end (%s)' % (calls, ck['argument']),
                               what='%s: %s' % (name, ck['argument']))
